@@ -235,6 +235,41 @@ def alias_effects(prog, fi):
                     return False
             return False
         return search(fi.node.body)
+    pm = astq.parent_map(fi.node)
+
+    def guarded_fresh(name, node):
+        """`name = FRESH if flag else ALIAS` (its only binding) and the effect sits under `if flag:` - on that path the value is the fresh one"""
+        binds = [a for a in ast.walk(fi.node) if isinstance(a, ast.Assign) and any(isinstance(t_, ast.Name) and t_.id == name for t_ in a.targets)]
+        if len(binds) != 1 or not isinstance(binds[0].value, ast.IfExp) or name in params:
+            return False
+        ife = binds[0].value
+        a_body, a_else = is_alias(ife.body), is_alias(ife.orelse)
+        if a_body == a_else:
+            return False
+        test = ife.test
+        neg = False
+        if isinstance(test, ast.UnaryOp) and isinstance(test.op, ast.Not):
+            test, neg = test.operand, True
+        if not isinstance(test, ast.Name):
+            return False
+        flag = test.id
+        if sum(1 for x in ast.walk(fi.node) if isinstance(x, ast.Name) and x.id == flag and isinstance(x.ctx, ast.Store)) != 1:
+            return False
+        fresh_when = (not a_body) != neg          # value of the flag under which the fresh operand is chosen
+        cur = node
+        while cur in pm:
+            par = pm[cur]
+            if isinstance(par, ast.If):
+                t2, neg2 = par.test, False
+                if isinstance(t2, ast.UnaryOp) and isinstance(t2.op, ast.Not):
+                    t2, neg2 = t2.operand, True
+                if isinstance(t2, ast.Name) and t2.id == flag:
+                    in_body = any(x is cur for x in par.body)
+                    holds = in_body != neg2       # value of the flag on this path
+                    if holds == fresh_when:
+                        return True
+            cur = par
+        return False
     for n in ast.walk(fi.node):
         if isinstance(n, ast.Assign):
             for t in n.targets:
@@ -242,7 +277,7 @@ def alias_effects(prog, fi):
                     root = t.value
                     while isinstance(root, (ast.Subscript, ast.Attribute)):
                         root = root.value
-                    if isinstance(root, ast.Name) and rebound_fresh_before(root.id, n):
+                    if isinstance(root, ast.Name) and (rebound_fresh_before(root.id, n) or guarded_fresh(root.id, n)):
                         continue
                     out.append((n, f"store into `{astq.src(t, 40)}` (may alias a parameter / the bound data)"))
         elif isinstance(n, ast.AugAssign):
@@ -270,15 +305,153 @@ def alias_effects(prog, fi):
     return out, alias
 
 
+def _effect_root(n):
+    """the local name an in-place effect goes through"""
+    t = None
+    if isinstance(n, ast.Assign):
+        t = next((x for x in n.targets if isinstance(x, ast.Subscript)), None)
+    elif isinstance(n, ast.AugAssign):
+        t = n.target
+    elif isinstance(n, ast.Call):
+        if isinstance(n.func, ast.Attribute) and n.func.attr in INPLACE_METHODS:
+            t = n.func.value
+        elif n.args:
+            t = n.args[0]
+        for k in n.keywords:
+            if k.arg == "out":
+                t = k.value
+    while isinstance(t, (ast.Subscript, ast.Attribute)) and not (isinstance(t, ast.Attribute) and isinstance(t.value, ast.Name) and t.value.id == "self"):
+        t = t.value
+    return t
+
+
+def _origins(prog, fi, expr):
+    """what the value of `expr` in fi may share storage with: parameter names of fi and/or 'self.data' (empty set: a fresh value)"""
+    pos, kwo, va, kwa = astq.params_of(fi.node)
+    params = set(pos + kwo) - {"self", "cls"}
+    if va:
+        params.add(va)
+    org = {p_: {p_} for p_ in params}
+
+    def of(e):
+        if isinstance(e, ast.Name):
+            return set(org.get(e.id, ()))
+        if isinstance(e, ast.Attribute):
+            if isinstance(e.value, ast.Name) and e.value.id == "self":
+                return {"self.data"} if e.attr == "data" else set()
+            return of(e.value) if e.attr in VIEW_ATTRS else set()
+        if isinstance(e, ast.Subscript):
+            # an element of a tuple / list of arrays, or a basic slice of an array
+            return of(e.value)
+        if isinstance(e, ast.Starred):
+            return of(e.value)
+        if isinstance(e, (ast.Tuple, ast.List)):
+            r = set()
+            for x in e.elts:
+                r |= of(x)
+            return r
+        if isinstance(e, ast.Call):
+            nm = astq.callee_name(prog, fi, e)
+            if nm in VIEW_FUNCS and e.args:
+                return of(e.args[0])
+            if isinstance(e.func, ast.Attribute) and e.func.attr in VIEW_CALLS:
+                return of(e.func.value)
+            return set()
+        if isinstance(e, ast.IfExp):
+            return of(e.body) | of(e.orelse)
+        return set()
+    changed = True
+    while changed:
+        changed = False
+        for n in ast.walk(fi.node):
+            pairs = []
+            if isinstance(n, ast.Assign) and len(n.targets) == 1:
+                t = n.targets[0]
+                if isinstance(t, ast.Name):
+                    pairs.append((t.id, of(n.value)))
+                elif isinstance(t, (ast.Tuple, ast.List)):
+                    o_ = of(n.value)
+                    if isinstance(n.value, (ast.Tuple, ast.List)) and len(n.value.elts) == len(t.elts):
+                        for tt, vv in zip(t.elts, n.value.elts):
+                            if isinstance(tt, ast.Name):
+                                pairs.append((tt.id, of(vv)))
+                    else:
+                        for tt in t.elts:
+                            tt = tt.value if isinstance(tt, ast.Starred) else tt
+                            if isinstance(tt, ast.Name):
+                                pairs.append((tt.id, o_))
+            elif isinstance(n, ast.For) and isinstance(n.target, ast.Name):
+                pairs.append((n.target.id, of(n.iter)))
+            for nm_, o_ in pairs:
+                if o_ - org.get(nm_, set()):
+                    org[nm_] = org.get(nm_, set()) | o_
+                    changed = True
+    return of(expr)
+
+
+def _callers(prog, fi):
+    out = []
+    for g in prog.functions.values():
+        if g.node is fi.node:
+            continue
+        for c, r in prog.calls_in(g):
+            if isinstance(r, FuncInfo) and r.node is fi.node:
+                out.append((g, c))
+    return out
+
+
+def _shared_at_callers(prog, fi, origins, depth=3, seen=()):
+    """does a value with these origins (parameters of fi / self.data) share storage with the bound data or with something handed in from
+    outside the package?  True: yes (violation), False: every caller hands in a fresh value, None: not decided"""
+    if "self.data" in origins:
+        return True, f"aliases `self.data` in {fi.node.name}"
+    params = [o for o in origins]
+    if not params:
+        return False, "fresh value"
+    if depth == 0 or fi.qual in seen:
+        return None, "call chain too long"
+    callers = _callers(prog, fi)
+    if not callers:
+        return True, f"`{params[0]}` is handed in from outside the package (no caller inside it)"
+    und = None
+    for g, c in callers:
+        m_, errs = astq.bind_args(fi.node, c, bound=isinstance(c.func, ast.Attribute) and fi.cls is not None and not getattr(fi, "is_static", False))
+        for p_ in params:
+            a_ = m_.get(p_)
+            if a_ is None:
+                # *args / **kwargs plumbing: every positional argument may end up in the parameter
+                cand = [x for x in c.args] + [k.value for k in c.keywords]
+            elif isinstance(a_, ast.AST):
+                cand = [a_]
+            else:
+                continue
+            for e_ in cand:
+                og = _origins(prog, g, e_)
+                st, why = _shared_at_callers(prog, g, og, depth - 1, seen + (fi.qual,))
+                if st is True:
+                    return True, f"{g.node.name} passes `{astq.src(e_, 30)}`: {why}"
+                if st is None:
+                    und = why
+    return (None, und) if und else (False, "every caller passes a value it has just computed")
+
+
 def shared_data(prog, run, reach):
     for q in reach:
         fi = prog.functions[q]
         f = rel(prog.mods[fi.mod].path)
         eff, alias = alias_effects(prog, fi)
-        if eff:
-            for n, why in eff:
-                run.ob("R-shared-data", fi.qual, "no in-place effect on shared data", False, why, witness=why[:80], file=f, node=n)
-        else:
+        bad = 0
+        for n, why in eff:
+            # an in-place effect inside a helper is harmless when every caller inside the package hands it a value it has just computed
+            root = _effect_root(n)
+            st, detail = True, ""
+            if root is not None and fi.node.name.startswith("_") and not fi.node.name.startswith("__"):
+                st, detail = _shared_at_callers(prog, fi, _origins(prog, fi, root))
+            if st is False:
+                continue
+            bad += 1
+            run.ob("R-shared-data", fi.qual, "no in-place effect on shared data", False if st else None, why + (f" - {detail}" if detail and st is not True else ""), witness=why[:80], file=f, node=n)
+        if not bad:
             run.ob("R-shared-data", fi.qual, "no in-place effect on shared data", True, f"{len(alias)} may-alias names checked", file=f, node=fi.node)
 
 
